@@ -251,6 +251,15 @@ def make_operand_recipe(pat, sr, dtype, default, rng) -> Dict[str, Any]:
 
 def build_operands(case):
     ops = [G.build_pt(r) for r in case["ops"]]
+    for i, j in enumerate(case.get("alias") or []):
+        # alias[i] = j < i: operand i is the same object as operand j ("same"), or another tensor over
+        # the very same PhysicalAxis objects with its own data ("axes")
+        if j is None: continue
+        if case.get("alias_mode", "same") == "same":
+            ops[i] = ops[j]
+        else:
+            from fggs.indices import PatternedTensor
+            ops[i] = PatternedTensor(ops[i].physical, ops[j].paxes, ops[j].vaxes, ops[i].default)
     if case.get("rg") and case["sr"] != "Bool":
         for t in ops:
             t.physical.requires_grad_(True)
@@ -569,8 +578,62 @@ def case_nontrivial(case, want=None) -> bool:
 # ----------------------------------------------------------------------------- units
 # A unit = (fn, sr, dtype, rg, inputs, output, ndraws, uid): the worker derives `ndraws` cases from a
 # seeded rng that depends only on (seed, uid), so chunking does not change the cases.
+STRUCTURED_TYPES = [
+    ["+", [["n", 1], ["n", 1]]], ["+", [["n", 1], ["n", 2]]], ["+", [["n", 2], ["n", 1]]],
+    ["*", [["n", 2], ["+", [["n", 1], ["n", 1]]]]], ["*", [["+", [["n", 1], ["n", 1]]], ["n", 2]]],
+    ["*", [["+", [["n", 1], ["n", 1]]], ["n", 3]]], ["*", [["n", 3], ["+", [["n", 1], ["n", 1]]]]],
+    ["*", [["+", [["n", 1], ["n", 1]]], ["+", [["n", 1], ["n", 1]]]]],
+]
+
+
+def directed_cases(unit, seed: int, tier: str):
+    """"pairs": every ordered pair of patterns conforming to one structured type, co-indexed ('i,i->', 'i,i->i');
+       "alias": one operand passed twice (same object / shared PhysicalAxis objects) under different or equal labels."""
+    fn, sr, dtype, rg, inputs, output, ndraws, uid = unit
+    rng = random.Random(int(hashlib.sha256(f"{seed}:C07:{uid}".encode()).hexdigest()[:16], 16))
+    zero = G.enc(s_zero(sr)) if sr != "Bool" else False
+    if fn == "pairs":
+        ty = STRUCTURED_TYPES[ndraws]
+        pats = conforming_patterns([ty], "thorough")
+        seen = set()
+        for p, q in itertools.product(pats, repeat=2):
+            k = canon([p["pool"], p["vaxes"], q["pool"], q["vaxes"]])
+            if k in seen: continue
+            seen.add(k)
+            ops = [make_operand_recipe(p, sr, dtype, zero, rng), make_operand_recipe(q, sr, dtype, zero, rng)]
+            yield {"fn": "einsum", "sr": sr, "dtype": dtype, "rg": bool(rg), "lab": 1, "inputs": [[0], [0]],
+                   "output": list(output), "sizes": [ty_size(ty)], "types": [ty], "ops": ops}
+        return
+    # alias
+    shape = tuple(ndraws)
+    pats = any_patterns(shape, tier)
+    seen = set()
+    for pat in pats:
+        k = canon([pat["pool"], pat["vaxes"]])
+        if k in seen: continue
+        seen.add(k)
+        for mode in ("same", "axes"):
+            a = make_operand_recipe(pat, sr, dtype, zero, rng)
+            b = a if mode == "same" else make_operand_recipe(pat, sr, dtype, zero, rng)
+            r = len(shape)
+            sizes = list(shape) + (list(shape) if inputs == "outer" else [])
+            if inputs == "outer":
+                ins, out = [list(range(r)), list(range(r, 2 * r))], list(range(2 * r))
+            elif inputs == "same":
+                ins, out = [list(range(r)), list(range(r))], list(range(r))
+            else:                                               # "chain": ij,jk->ik on a square operand
+                ins, out, sizes = [[0, 1], [1, 2]], [0, 2], [shape[0]] * 3
+            types = [["n", n] for n in sizes]
+            yield {"fn": "einsum", "sr": sr, "dtype": dtype, "rg": bool(rg), "lab": 1, "inputs": ins, "output": out,
+                   "sizes": sizes, "types": types, "ops": [a, json.loads(json.dumps(b))],
+                   "alias": [None, 0], "alias_mode": mode}
+
+
 def unit_cases(unit, seed: int, tier: str):
     fn, sr, dtype, rg, inputs, output, ndraws, uid = unit
+    if fn in ("pairs", "alias"):
+        yield from directed_cases(unit, seed, tier)
+        return
     rng = random.Random(int(hashlib.sha256(f"{seed}:C07:{uid}".encode()).hexdigest()[:16], 16))
     k = n_labels(inputs)
     if fn in ("mv", "mm"):
@@ -736,6 +799,19 @@ def build_units(ctx: Ctx) -> Tuple[List[Any], Dict[str, Any]]:
             for sr, dt, rg in combos(False):
                 units.append(("einsum4", sr, dt, rg, inputs, output, (6 if th else 2), uid)); uid += 1; n4 += 1
     info["units with a label of size 4 or 6 (product types)"] = n4
+    # --- directed: all pairs of patterns conforming to one structured (sum / product-of-sum) type, co-indexed
+    nd = 0
+    for ti in range(len(STRUCTURED_TYPES)):
+        for output in ([], [0]):
+            for sr, dt, rg in (combos(False) if th else [("Real", "float64", False), ("Log", "float64", True), ("Bool", "bool", False)]):
+                units.append(("pairs", sr, dt, rg, None, output, ti, uid)); uid += 1; nd += 1
+    # --- directed: one operand passed twice (same object, or two tensors over the same PhysicalAxis objects)
+    shapes_alias = [(1,), (2,), (3,), (4,), (6,), (2, 2), (1, 2), (3, 3)] if th else [(2,), (3,), (4,), (2, 2)]
+    for shp in shapes_alias:
+        for how in ("outer", "same") + (("chain",) if len(shp) == 2 and shp[0] == shp[1] else ()):
+            for sr, dt, rg in (combos(False) if th else [("Real", "float64", False), ("Viterbi", "float64", True)]):
+                units.append(("alias", sr, dt, rg, how, None, list(shp), uid)); uid += 1; nd += 1
+    info["directed units (co-indexed pattern pairs of structured types; aliased operands)"] = nd
     # --- the empty operand list
     for sr, dt, rg in combos(True):
         units.append(("einsum", sr, dt, rg, [], [], 1, uid)); uid += 1
